@@ -63,6 +63,7 @@ type Sim struct {
 	maxSteps  int
 	idleSpins int
 	running   bool
+	inHook    bool
 	stepHook  func()
 }
 
@@ -151,7 +152,7 @@ func (t *Task) setDone() { t.state = 2 }
 func (t *Task) setPanic(r interface{}, stk string) { t.Panic = r; t.PanicStk = stk }
 
 //go:norace
-func Active() bool { return S != nil && S.running && S.curTask() != nil }
+func Active() bool { return S != nil && S.running && !S.inHook && S.curTask() != nil }
 
 //go:norace
 func (s *Sim) hash(t *Task, point string) {
@@ -170,7 +171,7 @@ func (s *Sim) hash(t *Task, point string) {
 //go:norace
 func Yield(point string) {
 	s := S
-	if s == nil || !s.running {
+	if s == nil || !s.running || s.inHook {
 		return
 	}
 	t := s.curTask()
@@ -199,7 +200,11 @@ func Yield(point string) {
 		}
 	}
 	if s.stepHook != nil {
+		// the hook is the kernel's own code (an invariant evaluated after every step): while it runs, the shim must
+		// behave as outside a task
+		s.inHook = true
 		s.stepHook()
+		s.inHook = false
 	}
 }
 
